@@ -129,6 +129,15 @@ func c14Show(c *c14Case) string {
 }
 
 func init() {
+	hx.RegisterReplayer("C14/two-worlds", func(r *hx.Run, data json.RawMessage) {
+		var cs []*c14Case
+		if err := json.Unmarshal(data, &cs); err != nil || len(cs) != 2 {
+			panic(fmt.Sprint("bad replay data ", err))
+		}
+		if k, m := checkInterfaceTwoRepos(cs[0], cs[1]); k != "" {
+			r.Report(k, m, "C14/two-worlds", cs)
+		}
+	})
 	hx.RegisterReplayer("C14/world", func(r *hx.Run, data json.RawMessage) {
 		var c c14Case
 		if err := json.Unmarshal(data, &c); err != nil {
@@ -214,9 +223,127 @@ func (g *c14gen) actionCallSite(y *ybuf, spec string, inputs map[string]bool, ou
 	return exp
 }
 
+// checkInterfaceTwoRepos puts the two cases into sibling repositories r1 and r2 and lints both callers
+// in one invocation (both argument orders).
+func checkInterfaceTwoRepos(c1, c2 *c14Case) (key, msg string) {
+	w := world.New()
+	defer w.Cleanup()
+	cases := map[string]*c14Case{"r1": c1, "r2": c2}
+	for dir, c := range cases {
+		w.Repo(dir)
+		for p, s := range c.Files {
+			w.Write(filepath.Join(dir, p), s)
+		}
+	}
+	for _, order := range [][]string{{"r1", "r2"}, {"r2", "r1"}} {
+		got := map[string][]string{}
+		var pan any
+		var ferr error
+		func() {
+			defer func() { pan = recover() }()
+			l, _ := al.NewLinter(&bytes.Buffer{}, &al.LinterOptions{WorkingDir: w.Root})
+			var paths []string
+			for _, dir := range order {
+				paths = append(paths, filepath.Join(w.Root, dir, cases[dir].Caller))
+			}
+			errs, err := l.LintFiles(paths, nil)
+			ferr = err
+			for _, e := range errs {
+				d := Diag{e.Line, e.Column, e.Kind, e.Message, e.Filepath}
+				if s, ok := c14Classify(d); ok {
+					dir := strings.SplitN(filepath.ToSlash(e.Filepath), "/", 2)[0]
+					got[dir] = append(got[dir], s)
+				}
+			}
+		}()
+		if pan != nil || ferr != nil {
+			return "C14/panic-or-fatal", fmt.Sprintf("%v %v", pan, ferr)
+		}
+		for dir, c := range cases {
+			g := got[dir]
+			sort.Strings(g)
+			if strings.Join(g, "\n") != strings.Join(c.Expect, "\n") {
+				missing, extra := diffStrings(c.Expect, g)
+				return "C14/two-repositories-in-one-invocation", fmt.Sprintf("argument order %v: caller of %s\nexpected but not reported: %v\nreported but not expected: %v\n--- r1\n%s\n--- r2\n%s", order, dir, missing, extra, c14Show(c1), c14Show(c2))
+			}
+		}
+	}
+	return "", ""
+}
+
+// genLocalActionCase draws a local action (metadata, location, spelling of the spec) and a call site.
+func genLocalActionCase(rt *rapid.T) (*c14Case, string, string, string, int) {
+	g := &c14gen{t: rt}
+	var meta strings.Builder
+	meta.WriteString("name: my action\ndescription: d\n")
+	inputs := map[string]bool{}
+	nin := rapid.IntRange(0, 4).Draw(rt, "nin")
+	if nin > 0 {
+		meta.WriteString("inputs:\n")
+	}
+	for i := 0; i < nin; i++ {
+		n := fmt.Sprintf("in%d", i)
+		fmt.Fprintf(&meta, "  %s:\n    description: d\n", g.spell(n))
+		req := rapid.SampledFrom([]string{"", "true", "false"}).Draw(rt, "req")
+		def := rapid.Bool().Draw(rt, "def")
+		if req != "" {
+			fmt.Fprintf(&meta, "    required: %s\n", req)
+		}
+		if def {
+			fmt.Fprintf(&meta, "    default: %s\n", rapid.SampledFrom([]string{"x", "''", "0", "false"}).Draw(rt, "defv"))
+		}
+		inputs[n] = req == "true" && !def
+	}
+	var outs []string
+	nout := rapid.IntRange(0, 3).Draw(rt, "nout")
+	using := rapid.SampledFrom([]string{"node20", "docker", "composite"}).Draw(rt, "using")
+	if nout > 0 {
+		meta.WriteString("outputs:\n")
+	}
+	for i := 0; i < nout; i++ {
+		n := fmt.Sprintf("out%d", i)
+		outs = append(outs, n)
+		fmt.Fprintf(&meta, "  %s:\n    description: d\n", g.spell(n))
+		if using == "composite" {
+			meta.WriteString("    value: ${{ steps.x.outputs.y }}\n")
+		}
+	}
+	files := map[string]string{}
+	// where the action lives and how the step spells it: the repository root ("./"), one level,
+	// several levels; with or without a trailing slash; action.yml or action.yaml
+	dir := rapid.SampledFrom([]string{"act/", "", "sub/dir/act/", ".github/actions/x/"}).Draw(rt, "dir")
+	spec := "./" + strings.TrimSuffix(dir, "/")
+	if dir != "" && rapid.IntRange(0, 3).Draw(rt, "slash") == 0 {
+		spec += "/"
+	}
+	metaName := rapid.SampledFrom([]string{"action.yml", "action.yml", "action.yaml"}).Draw(rt, "metaName")
+	switch using {
+	case "node20":
+		meta.WriteString("runs:\n  using: node20\n  main: index.js\n")
+		files[dir+"index.js"] = ""
+	case "docker":
+		meta.WriteString("runs:\n  using: docker\n  image: Dockerfile\n")
+		files[dir+"Dockerfile"] = "FROM alpine\n"
+	default:
+		meta.WriteString("runs:\n  using: composite\n  steps:\n    - run: echo\n      shell: bash\n      id: x\n")
+	}
+	files[dir+metaName] = meta.String()
+	y := &ybuf{}
+	y.ln("on: push")
+	y.ln("jobs:")
+	y.ln("  a:")
+	y.ln("    runs-on: ubuntu-latest")
+	y.ln("    steps:")
+	exp := g.actionCallSite(y, spec, inputs, outs, false, false)
+	sort.Strings(exp)
+	files[".github/workflows/w.yml"] = y.b.String()
+	c := &c14Case{Files: files, Caller: ".github/workflows/w.yml", Expect: exp, Kind: "local-action"}
+	return c, meta.String(), using, spec, nin
+}
+
 func TestC14(t *testing.T) {
 	hx.Main(t, "C14", func(r *hx.Run) {
-		r.Rule = "(a) every action spec of the bundled popular-actions table (complete enumeration, several call sites each): random subset of declared inputs in random letter case and order, 0-2 undeclared inputs, required inputs dropped, references to declared and undeclared outputs; (b) generated well-formed local actions (inputs with every required/default combination, outputs, node/docker/composite); (c) generated local reusable workflows (typed inputs with required/default, required/optional secrets, outputs) with call sites (subset, extra names, secrets: inherit, typed literal / expression / templated values) and needs.<job>.outputs references, linted alone and together with the callee in both argument orders. Oracle: expected set of {undefined input/secret at its key, missing required at uses, undefined output at the reference, unassignable typed value at the value} computed from the generated interface (b, c) or the exported table (a). Non-trivial = call site with >= 1 declared and >= 1 violating name; distinct = files hash."
+		r.Rule = "(a) every action spec of the bundled popular-actions table (complete enumeration, several call sites each): random subset of declared inputs in random letter case and order, 0-2 undeclared inputs, required inputs dropped, references to declared and undeclared outputs; (b) generated well-formed local actions (inputs with every required/default combination, outputs, node/docker/composite; at the repository root, one or several levels down, with trailing slash, action.yml / action.yaml), alone and as two sibling repositories with the same relative paths linted in one invocation; (c) generated local reusable workflows (typed inputs with required/default, required/optional secrets, outputs) with call sites (subset, extra names, secrets: inherit, typed literal / expression / templated values) and needs.<job>.outputs references, linted alone and together with the callee in both argument orders. Oracle: expected set of {undefined input/secret at its key, missing required at uses, undefined output at the reference, unassignable typed value at the value} computed from the generated interface (b, c) or the exported table (a). Non-trivial = call site with >= 1 declared and >= 1 violating name; distinct = files hash."
 		r.Assumptions = []string{"for (a) the exported PopularActions table is the specification of the bundled data", "typed-value clause asserted only for: number <- non-numeric string / bool / null literal or templated text (reported); string <- null (reported); number <- numeric literal, string <- string/templated text, boolean <- true|false, anything <- expression of type any (not reported)"}
 		// (a) popular actions, complete enumeration
 		specs := make([]string, 0, len(al.PopularActions))
@@ -278,71 +405,8 @@ func TestC14(t *testing.T) {
 		r.Extra["popular_action_specs_enumerated_by_this_run"] = len(mySpecs)
 		// (b) local actions
 		r.Check(t, "local-actions", hx.N(250, 6000), func(rt *rapid.T) {
-			g := &c14gen{t: rt}
-			var meta strings.Builder
-			meta.WriteString("name: my action\ndescription: d\n")
-			inputs := map[string]bool{}
-			nin := rapid.IntRange(0, 4).Draw(rt, "nin")
-			if nin > 0 {
-				meta.WriteString("inputs:\n")
-			}
-			for i := 0; i < nin; i++ {
-				n := fmt.Sprintf("in%d", i)
-				fmt.Fprintf(&meta, "  %s:\n    description: d\n", g.spell(n))
-				req := rapid.SampledFrom([]string{"", "true", "false"}).Draw(rt, "req")
-				def := rapid.Bool().Draw(rt, "def")
-				if req != "" {
-					fmt.Fprintf(&meta, "    required: %s\n", req)
-				}
-				if def {
-					fmt.Fprintf(&meta, "    default: %s\n", rapid.SampledFrom([]string{"x", "''", "0", "false"}).Draw(rt, "defv"))
-				}
-				inputs[n] = req == "true" && !def
-			}
-			var outs []string
-			nout := rapid.IntRange(0, 3).Draw(rt, "nout")
-			using := rapid.SampledFrom([]string{"node20", "docker", "composite"}).Draw(rt, "using")
-			if nout > 0 {
-				meta.WriteString("outputs:\n")
-			}
-			for i := 0; i < nout; i++ {
-				n := fmt.Sprintf("out%d", i)
-				outs = append(outs, n)
-				fmt.Fprintf(&meta, "  %s:\n    description: d\n", g.spell(n))
-				if using == "composite" {
-					meta.WriteString("    value: ${{ steps.x.outputs.y }}\n")
-				}
-			}
-			files := map[string]string{}
-			// where the action lives and how the step spells it: the repository root ("./"), one level,
-			// several levels; with or without a trailing slash; action.yml or action.yaml
-			dir := rapid.SampledFrom([]string{"act/", "", "sub/dir/act/", ".github/actions/x/"}).Draw(rt, "dir")
-			spec := "./" + strings.TrimSuffix(dir, "/")
-			if dir != "" && rapid.IntRange(0, 3).Draw(rt, "slash") == 0 {
-				spec += "/"
-			}
-			metaName := rapid.SampledFrom([]string{"action.yml", "action.yml", "action.yaml"}).Draw(rt, "metaName")
-			switch using {
-			case "node20":
-				meta.WriteString("runs:\n  using: node20\n  main: index.js\n")
-				files[dir+"index.js"] = ""
-			case "docker":
-				meta.WriteString("runs:\n  using: docker\n  image: Dockerfile\n")
-				files[dir+"Dockerfile"] = "FROM alpine\n"
-			default:
-				meta.WriteString("runs:\n  using: composite\n  steps:\n    - run: echo\n      shell: bash\n      id: x\n")
-			}
-			files[dir+metaName] = meta.String()
-			y := &ybuf{}
-			y.ln("on: push")
-			y.ln("jobs:")
-			y.ln("  a:")
-			y.ln("    runs-on: ubuntu-latest")
-			y.ln("    steps:")
-			exp := g.actionCallSite(y, spec, inputs, outs, false, false)
-			sort.Strings(exp)
-			files[".github/workflows/w.yml"] = y.b.String()
-			c := &c14Case{Files: files, Caller: ".github/workflows/w.yml", Expect: exp, Kind: "local-action"}
+			c, metaText, using, spec, nin := genLocalActionCase(rt)
+			exp := c.Expect
 			r.Eval()
 			if len(exp) > 0 && nin > 0 {
 				r.NT(c14Show(c))
@@ -352,9 +416,24 @@ func TestC14(t *testing.T) {
 			for _, e := range exp {
 				r.Class("local-action/expected:" + strings.SplitN(e, "|", 3)[1])
 			}
-			r.Sample(map[string]any{"action.yml": meta.String(), "workflow": y.b.String(), "expected": exp})
+			r.Sample(map[string]any{"action.yml": metaText, "workflow": c.Files[c.Caller], "expected": exp})
 			if k, m := checkInterface(c); k != "" {
 				r.Fail(rt, k, m, "C14/world", c)
+			}
+		})
+		// (b2) two repositories in one invocation: the same relative action path, different interfaces;
+		// every caller is checked against the action of its own repository, in both argument orders
+		r.Check(t, "local-actions-two-repositories", hx.N(120, 3000), func(rt *rapid.T) {
+			c1, _, _, _, _ := genLocalActionCase(rt)
+			c2, _, _, _, _ := genLocalActionCase(rt)
+			r.Eval()
+			if len(c1.Expect)+len(c2.Expect) > 0 {
+				r.NT(c14Show(c1), c14Show(c2))
+			}
+			r.Class("two-repositories")
+			r.Sample(map[string]any{"repo1": c14Show(c1), "repo2": c14Show(c2)})
+			if k, m := checkInterfaceTwoRepos(c1, c2); k != "" {
+				r.Fail(rt, k, m, "C14/two-worlds", []*c14Case{c1, c2})
 			}
 		})
 		// (c) local reusable workflows
